@@ -18,6 +18,8 @@ SUMMARISED = {
     ('jedi.api.classes', 'Name.is_definition'): 'C17: is_definition() is the token\'s own is_definition(); names without a token are definitions',
     ('jedi.inference.filters', 'ParserTreeFilter._filter'): 'C03: a per-scope filter answers with the names before the position (super()._filter), of its own scope (_is_name_reachable), latest reachable first (_check_flows) - composed in this order',
     ('jedi.inference.filters', 'AbstractFilter._filter'): 'C03: with a position limit only names that START before it are kept (strictly); without one all names',
+    ('jedi.inference.value.instance', 'SelfAttributeFilter._is_in_right_scope'): 'C04: a `self.x = ...` is an attribute of the instance exactly when its receiver resolves (goto) to the first parameter of a function of this class - closures nested in a method included; nothing else decides',
+    ('jedi.api.refactoring.extract', '_get_indentation'): 'C07: the indentation given to a replacement statement is the text of the original indentation (last line of the first leaf\'s prefix), not a re-synthesised string',
     ('jedi.api.project', 'Project.load'): 'C20: load accepts exactly the version that save writes and builds the project from the stored settings',
 }
 _cache = None
